@@ -75,15 +75,16 @@ CONSTANTS Defects,        \* subset of AllDefects
           ObeySet,        \* obey_exit policies explored
           EASet,          \* exit_after forms explored: subset of {"none", "secs", "ms", "at"}
           WithInterrupt,  \* TRUE: process() may also raise a non-Exception BaseException (KeyboardInterrupt)
-          Emit            \* TRUE: print every complete behaviour (path + final state) for the replay harness
+          Emit,           \* TRUE: print every complete behaviour (path + final state) for the replay harness
+          EarlyExit       \* TRUE: init() may also exit() before Filter.init() ran
 
 AllDefects == {"exit_after_time_module", "init_fail_skips_fini", "mq_ctor_partial_leak", "no_teardown_on_setup_failure",
                "shutdown_not_in_finally", "exitmsg_wrong_flag", "obey_wrong_flag", "propagate_error_escapes",
                "stop_evt_not_set"}
-LineageDefects == {"abort_at_every_site", "not_idempotent", "hb_complete", "running_after_terminal"}   \* see Lineage.tla
+LineageDefects == {"abort_at_every_site", "not_idempotent", "hb_complete", "running_after_terminal", "terminal_without_start"}   \* see Lineage.tla
 Policies == {"all", "clean", "error", "none"}
 ASSUME Defects \subseteq AllDefects \cup LineageDefects /\ K \in Nat /\ PropSet \subseteq Policies /\ ObeySet \subseteq Policies
-ASSUME EASet \subseteq {"none", "secs", "ms", "at"} /\ WithInterrupt \in BOOLEAN /\ Emit \in BOOLEAN
+ASSUME EASet \subseteq {"none", "secs", "ms", "at"} /\ WithInterrupt \in BOOLEAN /\ Emit \in BOOLEAN /\ EarlyExit \in BOOLEAN
 
 VARIABLES s, path
 lvars == <<s, path>>
@@ -119,12 +120,13 @@ Construct(c) ==
        validation (l.943-946, raise_pre), exit_after (l.981-993), the MQ (l.999-1011: sockets are created; raise_mid = the
        constructor fails after some sockets were bound), then whatever a subclass init() does after super().init()
        (raise_post / exit_post).  init() is NOT inside the try whose finally is fini(). *)
-InitChoices == {"ok", "raise_pre", "raise_mid", "raise_post", "exit_post"}
+InitChoices == {"ok", "raise_pre", "raise_mid", "raise_post", "exit_post"} \cup (IF EarlyExit THEN {"exit_pre"} ELSE {})
+\* exit_pre: a subclass init() calls exit() BEFORE Filter.init() has created anything (no MQ, no lineage START yet)
 InitFail(c, out, flt) ==
   \* intended design: whatever init() created is torn down through fini(); as written: nothing is
   LET leak == \/ c \in {"raise_post", "exit_post"} /\ D("init_fail_skips_fini")
               \/ c = "raise_mid" /\ (D("init_fail_skips_fini") \/ D("mq_ctor_partial_leak"))
-      stop == IF c = "exit_post" THEN TRUE ELSE s.stopEvt IN
+      stop == IF c \in {"exit_post", "exit_pre"} THEN TRUE ELSE s.stopEvt IN
   s' = [s EXCEPT !.outcome = out, !.faults = Flt(flt), !.cause = "fault", !.stopEvt = stop,
                  !.commOpen = leak,
                  !.calls = IF D("init_fail_skips_fini") THEN Call("init") ELSE Call("init") \o <<"fini">>,
@@ -135,7 +137,7 @@ InitStage(c) ==
        THEN c = "raise_pre" /\ InitFail("raise_pre", "Exception", "typeerror")      \* `time() + exit_after` on the module  l.986
        ELSE \/ c = "ok" /\ s' = [s EXCEPT !.stage = "setup", !.commOpen = TRUE, !.calls = Call("init")]
             \/ c \in {"raise_pre", "raise_mid", "raise_post"} /\ InitFail(c, "Exception", "raise")
-            \/ c = "exit_post" /\ InitFail(c, "Exit", "exit")
+            \/ c \in {"exit_post", "exit_pre"} /\ c \in InitChoices /\ InitFail(c, "Exit", "exit")
 
 (* --- filter.setup(config)  l.1172.  A failure skips the loop AND shutdown() (the try/finally of shutdown starts after
        setup), but not the exit message and not fini(). *)
